@@ -12,7 +12,7 @@ func init() {
 	register(&Prop{
 		ID:         "C13",
 		Title:      "Primary keys identify items faithfully and are enforced",
-		Decided:    "(R1) the function that renders a composite key must use an injective encoding (per-component quoting/escaping of the separator, a length prefix, or %q): joining raw renderings with a constant separator that can occur inside a component is recognised as the non-injective idiom; (R2) at every call site of keySchema.GetKey the error result is extracted and tested (the only accepted discard is the sparse-index case inside GetKey itself); (R3) in the key-attribute accessors the case for type label X returns field X of the attribute and tests presence of that same field, and a value is produced only on the present∧typed edges; (R4) UpdateItem re-derives the key of the updated item before committing and rejects a change; (R5) GetItem/Delete/Update address Table.Data with the key derived from the request's Key by the table's own schema (shared with C01.R3).",
+		Decided:    "(R1) the function that renders a composite key must use an injective encoding (per-component quoting/escaping of the separator, a length prefix, or %q): joining raw renderings with a constant separator that can occur inside a component is recognised as the non-injective idiom; (R2) at every call site of keySchema.GetKey the error result is extracted and tested (the only accepted discard is the sparse-index case inside GetKey itself); (R3) in the key-attribute accessors the case for type label X returns field X of the attribute and tests presence of that same field, and a value is produced only on the present∧typed edges; (R4) UpdateItem re-derives the key of the updated item before committing and rejects a change; (R5) GetItem/Delete/Update address Table.Data with the key derived from the request's Key by the table's own schema (shared with C01.R3); (R6) no function on the key derivation path rounds, trims, folds or re-formats a component (shared with C01.R8): two different key values never become one key string.",
 		NotDecided: "that the rendering of each single component is itself injective per type (%v of a string, of a number literal: see C12 for numerals); attribute types that DynamoDB does not allow as keys.",
 		Rules: []RuleDef{
 			{ID: "R1", Desc: "composite key encoding is injective (idiom rule on the key-rendering function)", Run: c13R1},
@@ -44,6 +44,13 @@ func init() {
 					e.check(good, "R5", e.fname(fn)+":Data["+s.kind+"]", e.ipos(s.in), "key origins: %s", strings.Join(os, "; "))
 				}
 				e.minCount("R5", 6)
+			}},
+			{ID: "R6", Desc: "each key component is rendered without loss: no rounding, trimming or folding on the key derivation path (= C01.R8)", Run: func(e *Engine) {
+				before := len(e.obs)
+				c01R8(e)
+				for i := before; i < len(e.obs); i++ {
+					e.obs[i].Rule = "R6"
+				}
 			}},
 		},
 	})
@@ -256,7 +263,14 @@ func c13R3(e *Engine) {
 				n++
 				construct := e.fname(fn) + ":case[" + label + "]"
 				rv := retVals(ret)
-				vo := e.origins(rv[0])
+				// the value: the attribute's own slot, read through a nil-safe dereference ("" for nil)
+				var vo []string
+				for _, o := range e.origins(rv[0]) {
+					if o == `const:""` {
+						continue
+					}
+					vo = append(vo, strings.TrimPrefix(o, "deref-of "))
+				}
 				okV := len(vo) == 1 && vo[0] == "field:Item."+label
 				okP := false
 				if pb, ok := rv[1].(*ssa.BinOp); ok && pb.Op == token.NEQ && isNilConst(pb.Y) {
